@@ -127,6 +127,12 @@ Definition table_ok (pol : policy) (dlm : str) (enc : N) (rows : list (list str)
   forallb (representable pol dlm) rows
   && match rows with r :: _ => negb (bom_prefix enc (join_line pol dlm r)) | [] => true end.
 
+(* whole tables also need a delimiter without LF / CR (monocolumn never writes the delimiter): otherwise the written
+   line is cut by the line splitter of the readers - NOT implied by good_dlm, which is about single lines
+   (Table_Proofs.table_roundtrip_nl_dlm_refuted) *)
+Definition dlm_nl_free (pol : policy) (dlm : str) : bool :=
+  match pol with Monocolumn => true | _ => negb (has_newline dlm) end.
+
 Definition table_representable (pol : policy) (dlm : str) (enc : N) (rows : list (list str)) : bool :=
   table_ok pol dlm enc rows && forallb (fun fs => forallb (fun f => negb (has CR f)) fs) rows.
 
